@@ -418,11 +418,11 @@ class Ctx:
         r = run_tlc(module, cfg, workdir=self.dir / f"tlc_{name}", env=e, workers=1, **kw)
         out = r["out"]
         bad = {}
-        for m in re.finditer(r'<<"VERDICT", "([^"]+)", "([^"]+)">>', out):
+        for m in re.finditer(r'<<\s*"VERDICT",\s*"([^"]+)",\s*"([^"]+)"\s*>>', out):   # TLC wraps long tuples over several lines
             bad[m.group(1)] = m.group(2)
         if not r["ok"]:
             raise MachineryError(f"trace validation {module}/{cfg} did not complete: {out[-2500:]}")
-        m = re.search(r'<<"CONSUMED", (\d+)>>', out)
+        m = re.search(r'<<\s*"CONSUMED",\s*(\d+)\s*>>', out)
         if not m or int(m.group(1)) != len(rows):
             raise MachineryError(f"trace validation {module}/{cfg}: consumed {m.group(1) if m else '?'} of {len(rows)} lines")
         self.cov["traces_validated_against_impl"] += len(rows)
